@@ -192,11 +192,13 @@ def run(ctx):
     check_same_source(ctx, F)
     check_marker_pairing(ctx, F)
     check_refill_threshold(ctx, F)
+    import props.C18 as c18
+    c18.check_valid_bits(ctx, F)          # "the number of payload bits reported is exact"
     ctx.assume('bit_array_to_chunks_truncated(x) yields the non-zero-led chunks of x, most significant first (its arithmetic is not decided)')
     return {
         'level': 'other',
         'explanation': 'Same-source rule over every function in src/stream/stack.rs that chunks the ANS state, marker push/strip pairing, error-origin classification of from_binary, and sibling agreement of the '
-                       'refill threshold between the two import loops and decode_symbol. These are necessary conditions of the bits-back round trip for all inputs; the algebraic inverse property of '
+                       'refill threshold between the two import loops and decode_symbol; num_valid_bits() is evaluated over the bit-length model from_binary establishes. These are necessary conditions of the bits-back round trip for all inputs; the algebraic inverse property of '
                        'decode/encode on arbitrary states is value-level and not decided.',
         'trusted_base': ['rustc type checker + MIR construction', 'cfacts extractor'],
     }
